@@ -2250,6 +2250,12 @@ class Field(
                     f"Can't insert a duplicate data array axis: {axis!r}"
                 )
 
+            # Interpret a negative position in the same way as the
+            # data array does
+            ndim = len(data_axes)
+            if -ndim - 1 <= position < 0:
+                position += ndim + 1
+
             data_axes = list(data_axes)
             data_axes.insert(position, axis)
 
